@@ -25,6 +25,7 @@ class Module:
         self.classes = {}      # name -> ClassInfo
         self.functions = {}    # name -> ast.FunctionDef
         self.assigns = {}      # module-level NAME -> ast expr
+        self.star_imports = []  # dotted modules imported with `from m import *`
         self._scan()
 
     def _scan(self):
@@ -37,9 +38,14 @@ class Module:
                 base = node.module or ''
                 if node.level:
                     parts = self.name.split('.')
+                    if os.path.basename(self.path) == '__init__.py':
+                        parts = parts + ['__init__']     # a package: level 1 is the package itself
                     base_pkg = '.'.join(parts[:len(parts) - node.level])
                     base = (base_pkg + '.' + base) if base else base_pkg
                 for a in node.names:
+                    if a.name == '*':
+                        self.star_imports.append(base)
+                        continue
                     self.imports[a.asname or a.name] = ('from', base, a.name)
             elif isinstance(node, ast.ClassDef):
                 self.classes[node.name] = ClassInfo(self, node, node.name)
@@ -107,6 +113,12 @@ class Program:
             imp = m.imports.get(parts[0])
             if imp and imp[0] == 'from':
                 return self.cls(imp[1], '.'.join([imp[2]] + parts[1:]))
+            for sm in m.star_imports:
+                if self.has_module(sm):
+                    try:
+                        return self.cls(sm, clsname)
+                    except BindError:
+                        continue
             raise BindError('class %s.%s not found' % (modname, clsname))
         for p in parts[1:]:
             c2 = c.inner.get(p)
